@@ -118,6 +118,7 @@ type schedConn struct {
 	// pending, and the (single-threaded, in-order) peer does not accept further request bytes while it still has output to
 	// deliver, like a synchronous pipe or a TCP connection with full buffers
 	cap      int
+	maxRead  int // > 0: one transport read returns at most this many bytes (segmented delivery)
 	pending  []byte
 	inbound  []byte
 	outLen   int
@@ -151,6 +152,9 @@ func (c *schedConn) Write(p []byte) (int, error) {
 
 func (c *schedConn) Read(p []byte) (int, error) {
 	vsched.Await("transport.read", func() bool { return len(c.inbound) > 0 })
+	if c.maxRead > 0 && len(p) > c.maxRead {
+		p = p[:c.maxRead]
+	}
 	n := copy(p, c.inbound)
 	c.inbound = c.inbound[n:]
 	c.readLog = append(c.readLog, n)
@@ -289,6 +293,10 @@ func scenario(name string, reqs []req, extra string, bounds []int, prune bool) m
 }
 
 func scenarioCap(name string, reqs []req, extra string, bounds []int, prune bool, capacity int) mc.Scenario {
+	return scenarioSeg(name, reqs, extra, bounds, prune, capacity, 0)
+}
+
+func scenarioSeg(name string, reqs []req, extra string, bounds []int, prune bool, capacity int, maxRead int) mc.Scenario {
 	extraPer := 0
 	if extra == "status-before" {
 		extraPer = 2
@@ -300,7 +308,7 @@ func scenarioCap(name string, reqs []req, extra string, bounds []int, prune bool
 		Name: name, Bounds: bounds, Horizon: 3000,
 		Setup: func(x *vsched.Exec) {
 			d := &execData{reqs: reqs}
-			d.conn = &schedConn{peer: newPeer(extra), cap: capacity}
+			d.conn = &schedConn{peer: newPeer(extra), cap: capacity, maxRead: maxRead}
 			d.a = rtmp.NewProtocol(d.conn)
 			x.Data = d
 			x.Go("W", func() {
@@ -359,8 +367,22 @@ func scenarios(c *hl.Ctx) []mc.Scenario {
 		scenarioCap("backpressure: connect+createStream, onBWDone after each result", []req{{"connect", 1}, {"createStream", 2}}, "bwdone-after", unb, true, 8),
 		scenarioCap("backpressure: 3-createStream, onBWDone after each result", cs(2, 3, 4), "bwdone-after", []int{0, 1, 2, 3}, true, 8),
 	}
+	// segmented delivery: responses reach the reader in transport reads of at most 7 (and 1) bytes, so the reader is
+	// descheduled inside chunk headers and payloads while the writer registers requests
+	l = append(l,
+		scenarioSeg("segmented-reads(7): connect+createStream+other-traffic", []req{{"connect", 1}, {"createStream", 2}}, "status-before", []int{0, 1, 2}, true, 0, 7),
+		scenarioSeg("segmented-reads(1): 2-createStream", cs(2, 3), "", []int{0, 1, 2}, true, 0, 1),
+	)
 	if c.Thorough() {
 		l = append(l,
+			scenarioSeg("segmented-reads(7): connect+createStream+other-traffic, unbounded", []req{{"connect", 1}, {"createStream", 2}}, "status-before", unb, true, 0, 7),
+			scenarioSeg("segmented-reads(1): 2-createStream, unbounded", cs(2, 3), "", unb, true, 0, 1),
+			scenarioSeg("segmented-reads(3)+backpressure(8): 3-createStream, onBWDone after each result", cs(2, 3, 4), "bwdone-after", unb, true, 8, 3),
+			scenario("5-createStream", cs(2, 3, 4, 5, 6), "", unb, true),
+			scenario("6-createStream", cs(2, 3, 4, 5, 6, 7), "", unb, true),
+			scenario("bigconnect+3-createStream+other-traffic", []req{{"bigconnect", 1}, {"createStream", 2}, {"createStream", 3}, {"createStream", 4}}, "status-before", unb, true),
+			scenarioCap("backpressure(1): connect+2-createStream, onBWDone after each result", []req{{"connect", 1}, {"createStream", 2}, {"createStream", 3}}, "bwdone-after", unb, true, 1),
+			scenarioCap("backpressure(64): connect+3-createStream, onBWDone after each result", []req{{"connect", 1}, {"createStream", 2}, {"createStream", 3}, {"createStream", 4}}, "bwdone-after", unb, true, 64),
 			scenario("4-createStream", cs(2, 3, 4, 5), "", unb, true),
 			scenario("connect+3-createStream+other-traffic", []req{{"connect", 1}, {"createStream", 2}, {"createStream", 3}, {"createStream", 4}}, "status-before", unb, true),
 		)
@@ -430,7 +452,7 @@ func racePass(c *hl.Ctx) {
 }
 
 func run(c *hl.Ctx) {
-	c.Rule("E1: every interleaving of writer W (WritePacket per request) and reader R (ReadMessage+DecodeMessage per response) on one Protocol; scheduling points: transport Write (before it performs; the peer's answer becomes readable inside it), transport Read (enabled iff bytes are readable), Lock/Unlock of the transaction-table mutex (R1). Bounds iterated 0,1,2,3,unbounded; state-key pruning for the larger scenarios. state = distinct observable outcome (records + read sizes); transition = scheduling step.")
+	c.Rule("E1: every interleaving of writer W (WritePacket per request) and reader R (ReadMessage+DecodeMessage per response) on one Protocol; scheduling points: transport Write (before it performs; the peer's answer becomes readable inside it), transport Read (enabled iff bytes are readable), Lock/Unlock of the transaction-table mutex (R1). Transport variants: unlimited, back-pressured (1/8/64 bytes in flight, the peer accepts the next request only when its output is delivered) and segmented delivery (reads of at most 1/3/7 bytes, so the reader is descheduled inside chunk headers and payloads). Bounds iterated 0,1,2,3,unbounded; state-key pruning for the larger scenarios. state = distinct observable outcome (records + read sizes); transition = scheduling step.")
 	c.Assume("the peer answers in request order, each answer complete and readable before the request's Write returns", "unsynchronised accesses between scheduling points are judged by the separate free-running race-detector pass", "transaction table observed by reflection (skipped if the field path input.transactions disappears)")
 	if c.Mode() == "race" {
 		racePass(c)
